@@ -118,6 +118,7 @@ def main():
         closed = (i % 7) != 6
         progs.append(proggen.gen_program(rng, sz, closed=closed))
     report = {"seed": seed, "n": n, "size": size}
+    report["generator_abandoned_draws"] = proggen.GEN_FAILURES[0]
     report["generator_bugs"] = sum(1 for p in progs if p.meta.get("generator_bug"))
     report["not_terminating_in_reference"] = sum(1 for p in progs if p.meta["closed"] and not p.meta.get("terminates"))
     forms = sorted(p.meta["n_forms"] for p in progs)
